@@ -103,9 +103,12 @@ func NewUnboundedPriorityMailBox(priorityFunc PriorityFunc) *UnboundedPriorityMa
 func (q *UnboundedPriorityMailBox) Enqueue(msg *ReceiveContext) error {
 	q.lock.Lock()
 	hp.Push(q.heap, msg)
-	q.lock.Unlock()
+	// count inside the critical section: Dequeue trusts the counter, so a push
+	// that is visible in the heap must never be missing from it, or a later
+	// producer's completed message is reported as "mailbox empty"
 	verifhook.At("uprio.enq.count", q, 0, 0)
 	atomic.AddInt64(&q.length, 1)
+	q.lock.Unlock()
 	return nil
 }
 
